@@ -281,8 +281,10 @@ def interrupt_points(info):
     pre = info.get('server_pre_open') or {}
     out = []
     for k in INTERRUPT_KINDS:
-        for n in range(pre.get(k, 0), kinds.get(k, 0)):
-            out.append({'role': 'server', 'kind': k, 'n': n})
+        # n counts from the main thread's first queue put on, so that the point does not move
+        # when a schedule makes the admission phase take more or fewer operations
+        for n in range(0, kinds.get(k, 0) - pre.get(k, 0)):
+            out.append({'role': 'server', 'kind': k, 'n': n, 'anchor': 'q.put'})
     return out
 
 
